@@ -115,7 +115,8 @@ type vsvStream struct {
 	addr   string
 	ctx    context.Context
 	cancel context.CancelFunc
-	mode   atomic.Value // "reading" | "stalled" | "disc"
+	mode   atomic.Value  // "reading" | "stalled" | "disc"
+	resume chan struct{} // closed when a stalled consumer starts reading again
 	ended  atomic.Bool
 }
 
@@ -292,8 +293,11 @@ func (st *vsvStream) Send(p *proto.BeaconPacket) error {
 			return err
 		}
 	} else if st.mode.Load().(string) == "stalled" {
-		<-sc.tdown
-		return errVsvTeardown
+		select {
+		case <-sc.tdown:
+			return errVsvTeardown
+		case <-st.resume:
+		}
 	}
 	if sc.closed.Load() {
 		return errVsvTeardown
@@ -430,7 +434,7 @@ func (s *vsvScn) open(n int, from uint64, l log.Logger) *vsvStream {
 	addr := fmt.Sprintf("vsv%d-c%d:4444", s.no, k)
 	ctx, cancel := context.WithCancel(context.Background())
 	ctx = peer.NewContext(ctx, &peer.Peer{Addr: vsvAddr(addr)})
-	st := &vsvStream{sc: s, n: n, from: from, addr: addr, ctx: ctx, cancel: cancel}
+	st := &vsvStream{sc: s, n: n, from: from, addr: addr, ctx: ctx, cancel: cancel, resume: make(chan struct{})}
 	st.mode.Store("reading")
 	s.mu.Lock()
 	s.streams[n] = st
@@ -1098,6 +1102,74 @@ func vsvScanStall(tr *vlib.Trace, no int, name, backend string, nputs int, workd
 	s.tr.Emit("Quiesce", vlib.E{"parked": [][]any{}, "diverged": false})
 }
 
+// vsvSlowResume: a live stream whose client stops reading while the writer (its own goroutine)
+// appends CallbackWorkerQueue+extra beacons, and then resumes.  Whatever the writer does meanwhile
+// (on the unchanged tree it parks on the full queue until the client reads again), the client must
+// afterwards be handed every round, once, in order.
+func vsvSlowResume(tr *vlib.Trace, no int, name, backend string, extra int, workdir string, l log.Logger) {
+	sc := vsvScript{Name: name, Backend: backend, Init: 3, Buf: 4000}
+	s, err := vsvNewScn(tr, no, sc, false, workdir, l)
+	if err != nil {
+		tr.Emit("Reset", vlib.E{"scenario": name, "error": err.Error()})
+		return
+	}
+	defer s.teardown()
+	a := s.open(1, 0, l)
+	select {
+	case <-s.chanFor("reg", 1):
+	case <-time.After(5 * time.Second):
+	}
+	// two beacons while the client still reads
+	for r := sc.Init + 1; r <= sc.Init+2; r++ {
+		s.putFree(r)
+	}
+	s.settle(5 * time.Second)
+	s.tr.Emit("Fault", vlib.E{"s": 1, "k": "stall"})
+	a.mode.Store("stalled")
+	var cur atomic.Uint64
+	writerDone := make(chan struct{})
+	last := sc.Init + 2 + uint64(CallbackWorkerQueue+extra)
+	s.wg.Add(1)
+	go func() {
+		defer s.wg.Done()
+		defer close(writerDone)
+		for r := sc.Init + 3; r <= last; r++ {
+			cur.Store(r)
+			b := &common.Beacon{Round: r, Signature: s.sig(r)}
+			s.tr.Emit("PutCall", vlib.E{"r": r, "dg": vsvDigest(s.sig(r))})
+			err := s.store.Put(context.Background(), b)
+			if s.closed.Load() {
+				return
+			}
+			res := "ok"
+			if err != nil {
+				res = "err"
+			}
+			s.tr.Emit("PutDone", vlib.E{"r": r, "res": res})
+		}
+	}()
+	if where, bl := s.blocked("(*callbackStore).Put(", writerDone); bl && where != "unknown" {
+		s.tr.Emit("PutBlocked", vlib.E{"r": cur.Load(), "where": where})
+	}
+	// the client reads again
+	s.tr.Emit("Fault", vlib.E{"s": 1, "k": "resume"})
+	a.mode.Store("reading")
+	close(a.resume)
+	select {
+	case <-writerDone:
+	case <-time.After(30 * time.Second):
+		s.tr.Emit("Diverged", vlib.E{"step": 0, "a": "writer", "s": 0, "x": cur.Load(), "want": "writer finishes after the client resumed"})
+	}
+	// two more beacons once the client keeps up again
+	for r := last + 1; r <= last+2; r++ {
+		if !s.putFree(r) {
+			break
+		}
+	}
+	s.settle(10 * time.Second)
+	s.tr.Emit("Quiesce", vlib.E{"parked": [][]any{}, "diverged": false})
+}
+
 // vsvReplStall: same-address replacement while the predecessor's consumer is stalled (real queue
 // capacity, far fewer than CallbackWorkerQueue beacons): stream A goes live, its consumer stops
 // reading, `pre` beacons are stored (A's worker is stuck in Send on the first, the others wait in A's
@@ -1220,6 +1292,10 @@ func TestVerifServe(t *testing.T) {
 		backends = strings.Split(b, ",")
 	}
 	for _, be := range backends {
+		if vsvHas(sel, "slowresume") {
+			no++
+			vsvSlowResume(tr, no, "builtin-slowresume-"+be, be, 8, workdir, l)
+		}
 		if vsvHas(sel, "replstall") {
 			no++
 			vsvReplStall(tr, no, "builtin-replstall-busy-"+be, be, 1, 5, 0, workdir, l)
